@@ -186,6 +186,25 @@ def infrastructure(ctx: Ctx, oid: str):
     ctx.require(rp is not None, "report_progress vanished from solvor/utils/helpers.py")
     t = ast.unparse(rp.node)
     ctx.ob(oid, "R18 table", rp, "report_progress calls the callback only at a reporting interval and asks for a stop only when it returned True", "if not (on_progress and progress_interval > 0 and (iteration % progress_interval == 0)):\n        return False" in t and "return on_progress(progress) is True" in t and "progress = Progress(iteration, current_obj, best_obj if best_obj != current_obj else None, evals)" in t, "", node=rp.node)
+    # the back-end dispatch hands the caller's arguments on as they are: the same call must mean the same problem for
+    # the kernel and for the Python body, and what is redundant for one routine (a repeated edge for a shortest path)
+    # is data for another (a link listed twice counts twice in PageRank)
+    if ctx.repo.has_func("rust", "with_rust_backend.wrapper"):
+        w = ctx.repo.func("rust", "with_rust_backend.wrapper")
+        edits = []
+        for n in own_nodes(w.node):
+            if isinstance(n, (ast.Assign, ast.AugAssign, ast.AnnAssign, ast.Delete)):
+                tg = n.targets if isinstance(n, (ast.Assign, ast.Delete)) else [n.target]
+                for t_ in tg:
+                    for e in t_.elts if isinstance(t_, ast.Tuple) else [t_]:
+                        b_ = e
+                        while isinstance(b_, (ast.Subscript, ast.Attribute, ast.Starred)):
+                            b_ = b_.value
+                        if isinstance(b_, ast.Name) and b_.id in ("args", "kwargs"):
+                            edits.append(n)
+            if isinstance(n, ast.Call) and isinstance(n.func, ast.Attribute) and isinstance(n.func.value, ast.Name) and n.func.value.id in ("args", "kwargs") and n.func.attr in ("pop", "update", "setdefault", "clear", "popitem", "__setitem__", "__delitem__"):
+                edits.append(n)
+        ctx.ob(oid, "R17 PARAM-IMMUTABLE", w, "the back-end dispatch wrapper hands the caller's positional and keyword arguments on unchanged (only `backend` is its own)", not edits, f"`{ast.unparse(edits[0])[:70]}`: arguments normalised in the wrapper change the problem for every decorated routine at once - dropping a repeated edge is harmless for shortest paths and wrong for pagerank_edges, where a link listed twice counts twice" if edits else "", node=edits[0] if edits else w.node)
 
 
 VALIDATORS = {
